@@ -72,7 +72,19 @@ type result struct {
 }
 
 // run executes src with cancellation at main-thread poll firePoll (>0) or inside tick number fireTick (>0).
+// attach says how the counting context c gets onto the state that runs the script:
+//
+//	""        L.SetContext(c) before the run (the ordinary way)
+//	"swap"    the state starts under another, never-done context; the script's first statement calls a host function
+//	          that attaches c in its place while the script is running
+//	"thread"  the main state has another, never-done context; the script runs in a thread made by NewThread (whose
+//	          context is derived from that one) on which SetContext(c) was then called - coroutines the script
+//	          creates must follow c
 func run(src string, firePoll int64, fireTick int, opts lua.Options) *result {
+	return runAttached(src, firePoll, fireTick, opts, "")
+}
+
+func runAttached(src string, firePoll int64, fireTick int, opts lua.Options, attach string) *result {
 	res := &result{}
 	inner, cancel := context.WithCancel(context.Background())
 	defer cancel()
@@ -90,7 +102,18 @@ func run(src string, firePoll int64, fireTick int, opts lua.Options) *result {
 			defer func() { recover() }()
 			L.Close()
 		}()
-		L.SetContext(c)
+		other, cancelOther := context.WithCancel(context.Background())
+		defer cancelOther()
+		switch attach {
+		case "swap":
+			L.SetContext(other)
+			L.SetGlobal("swapctx", L.NewFunction(func(T *lua.LState) int { T.SetContext(c); return 0 }))
+			src = "swapctx() " + src
+		case "thread":
+			L.SetContext(other)
+		default:
+			L.SetContext(c)
+		}
 		L.SetGlobal("tick", L.NewFunction(func(L *lua.LState) int {
 			if c.fired {
 				res.callsAfter++
@@ -115,6 +138,27 @@ func run(src string, firePoll int64, fireTick int, opts lua.Options) *result {
 			res.emits = append(res.emits, b.String())
 			return 0
 		}))
+		if attach == "thread" {
+			fn, err := L.LoadString(src)
+			if err != nil {
+				res.err, res.finished = err, true
+				return
+			}
+			th, _ := L.NewThread()
+			th.SetContext(c)
+			for {
+				st, err, _ := L.Resume(th, fn)
+				if st == lua.ResumeError {
+					res.err = err
+					break
+				}
+				if st == lua.ResumeOK {
+					break
+				}
+			}
+			res.finished = true
+			return
+		}
 		res.err = L.DoString(src)
 		res.finished = true
 	}()
@@ -189,6 +233,7 @@ type CancelCase struct {
 	Upto     int    `json:"upto"` // enumerate cancellation points 1..Upto
 	MinStack bool   `json:"minimize_stack"`
 	Src      string `json:"src,omitempty"` // generated terminating programs
+	Attach   string `json:"attach,omitempty"`
 }
 
 func (c *CancelCase) source() string {
@@ -218,12 +263,12 @@ var chkCancel = vf.Register("cancel_everywhere", func(k *vf.C, c *CancelCase) er
 	for p := 1; p <= c.Upto; p++ {
 		var r *result
 		if c.Mode == "poll" {
-			r = run(src, int64(p), 0, opts)
+			r = runAttached(src, int64(p), 0, opts, c.Attach)
 		} else {
-			r = run(src, 0, p, opts)
+			r = runAttached(src, 0, p, opts, c.Attach)
 		}
 		k.Class("cancellations")
-		where := fmt.Sprintf("%s(%d): cancel at %s %d", c.Template, c.Param, c.Mode, p)
+		where := fmt.Sprintf("%s(%d)%s: cancel at %s %d", c.Template, c.Param, map[string]string{"": "", "swap": " [context attached by a host function during the run]", "thread": " [script in a NewThread thread with its own SetContext]"}[c.Attach], c.Mode, p)
 		if r.stuck {
 			return fmt.Errorf("%s: the point was not reached; the harness then cancelled the context and the script was still running 10 s later", where)
 		}
@@ -262,8 +307,9 @@ var chkCancel = vf.Register("cancel_everywhere", func(k *vf.C, c *CancelCase) er
 	k.EvalN(c.Upto)
 	k.Class("template:" + c.Template)
 	k.Class("mode:" + c.Mode)
+	k.Class("attach:" + map[string]string{"": "before_run", "swap": "during_run", "thread": "on_derived_thread"}[c.Attach])
 	if landed >= 3 {
-		k.Nontrivial(vf.Hash(c.Template, fmt.Sprint(c.Param), c.Mode, fmt.Sprint(c.MinStack), c.Src))
+		k.Nontrivial(vf.Hash(c.Template, fmt.Sprint(c.Param), c.Mode, fmt.Sprint(c.MinStack), c.Src, c.Attach))
 		k.Sample(c.Mode, 3, map[string]any{"template": c.Template, "param": c.Param, "mode": c.Mode, "points": c.Upto, "landed": landed, "max_polls_after_cancel": deepest, "src": clip(src, 300)})
 	}
 	return nil
@@ -290,6 +336,11 @@ func TestTemplates(t *testing.T) {
 						n = upto / 3
 					}
 					chkCancel.Run(t, &CancelCase{Template: tp.name, Param: param, Mode: mode, Upto: n, MinStack: ms})
+					if !ms {
+						for _, at := range []string{"swap", "thread"} {
+							chkCancel.Run(t, &CancelCase{Template: tp.name, Param: param, Mode: mode, Upto: n / 3, MinStack: ms, Attach: at})
+						}
+					}
 				}
 			}
 		}
@@ -354,10 +405,13 @@ func firstDiffLine(a, b string) (int, string, string) {
 var chkLive = vf.Register("live_context_transparent", func(k *vf.C, c *LiveCase) error {
 	// the reference interpreter only bounds the program here (steps and events); the oracle is gopher-lua without a
 	// context against gopher-lua with a context that is never done
-	r := e1.RunRef(c.Src, nil)
-	if r.ParseErr != nil || r.Unspecified != "" {
-		k.Discard("reference: unspecified or over budget")
-		return nil
+	var r *e1.ROutcome
+	if c.Profile != "channels" {
+		r = e1.RunRef(c.Src, nil)
+		if r.ParseErr != nil || r.Unspecified != "" {
+			k.Discard("reference: unspecified or over budget")
+			return nil
+		}
 	}
 	var ctx context.Context
 	var cancel context.CancelFunc
@@ -368,7 +422,10 @@ var chkLive = vf.Register("live_context_transparent", func(k *vf.C, c *LiveCase)
 		ctx, cancel = context.WithTimeout(context.Background(), 24*time.Hour)
 	default:
 		// a counting context: live for far longer than the program runs
-		o := e1.BudgetFor(r)
+		o := &e1.GOpts{Budget: 50_000_000}
+		if r != nil {
+			o = e1.BudgetFor(r)
+		}
 		with := e1.RunGopher(c.Src, o)
 		if with.Overrun != "" {
 			k.Discard("run exceeds the budget derived from the reference run (subject of C01)")
@@ -405,8 +462,7 @@ func compareLive(k *vf.C, c *LiveCase, r *e1.ROutcome, with *e1.GOutcome) error 
 	}
 	k.Class("profile:" + c.Profile)
 	k.Class("context:" + c.Kind)
-	st := r.In.Stat
-	if st.Transfers > 0 {
+	if r != nil && r.In.Stat.Transfers > 0 {
 		k.Class("uses_coroutines")
 	}
 	if len(with.Trace) >= 2 {
@@ -416,12 +472,88 @@ func compareLive(k *vf.C, c *LiveCase, r *e1.ROutcome, with *e1.GOutcome) error 
 	return nil
 }
 
+// genChannelScript: channel operations inside one state that never block (the fill level of every channel is tracked);
+// every select has exactly one ready case (or none and a default), at a random position among cases of other
+// directions that are not ready, with and without handler functions.
+func genChannelScript(rt *rapid.T) string {
+	var b strings.Builder
+	b.WriteString("local A, B, E, F = channel.make(2), channel.make(1), channel.make(1), channel.make(1)\nF:send('full')\n")
+	b.WriteString("local function H(tag) return function(...) emit('handler', tag, select('#', ...), ...) end end\n")
+	fill := map[string]int{"A": 0, "B": 0}
+	capOf := map[string]int{"A": 2, "B": 1}
+	val := 0
+	nextVal := func() string {
+		val++
+		if val%3 == 0 {
+			return fmt.Sprintf("'s%d'", val)
+		}
+		return fmt.Sprint(val * 11)
+	}
+	n := rapid.IntRange(3, 9).Draw(rt, "nsteps")
+	for i := 0; i < n; i++ {
+		ch := rapid.SampledFrom([]string{"A", "B"}).Draw(rt, "ch")
+		switch rapid.IntRange(0, 3).Draw(rt, "step") {
+		case 0:
+			if fill[ch] < capOf[ch] {
+				fmt.Fprintf(&b, "%s:send(%s)\n", ch, nextVal())
+				fill[ch]++
+			}
+		case 1:
+			if fill[ch] > 0 {
+				fmt.Fprintf(&b, "emit('receive', %s:receive())\n", ch)
+				fill[ch]--
+			}
+		default:
+			// a select
+			handler := func(tag string) string {
+				if rapid.Bool().Draw(rt, "handler") {
+					return ", H('" + tag + "')"
+				}
+				return ""
+			}
+			notReady := []string{`{"|<-", E` + handler("recv E") + `}`, `{"<-|", F, 'never'` + handler("send F") + `}`}
+			var ready string
+			kind := rapid.IntRange(0, 2).Draw(rt, "readykind")
+			switch {
+			case kind == 0 && fill[ch] > 0:
+				ready = `{"|<-", ` + ch + handler("recv "+ch) + `}`
+				fill[ch]--
+			case kind == 1 && fill[ch] < capOf[ch]:
+				ready = `{"<-|", ` + ch + ", " + nextVal() + handler("send "+ch) + `}`
+				fill[ch]++
+			default:
+				ready = `{"default"` + handler("default") + `}`
+			}
+			var cases []string
+			for j, m := 0, rapid.IntRange(0, 3).Draw(rt, "nnotready"); j < m; j++ {
+				cases = append(cases, notReady[rapid.IntRange(0, 1).Draw(rt, "which")])
+			}
+			if strings.HasPrefix(ready, `{"default"`) {
+				cases = append(cases, ready) // a default case goes last
+			} else {
+				pos := rapid.IntRange(0, len(cases)).Draw(rt, "pos")
+				cases = append(cases[:pos], append([]string{ready}, cases[pos:]...)...)
+				if rapid.Bool().Draw(rt, "trailingdefault") {
+					cases = append(cases, `{"default"`+handler("unused default")+`}`)
+				}
+			}
+			fmt.Fprintf(&b, "emit('select', channel.select(%s))\n", strings.Join(cases, ", "))
+		}
+	}
+	b.WriteString("A:close()\nfor i = 1, 4 do emit('drain', A:receive()) end\nemit('closed select', channel.select({\"|<-\", A, H('closed A')}, {\"|<-\", E}))\n")
+	return b.String()
+}
+
 func TestLiveContextTransparent(t *testing.T) {
 	profiles := []*lgen.Profile{lgen.Coroutines(), lgen.Coroutines(), lgen.Errors(), lgen.Calls(), lgen.Closures(), lgen.Meta(), lgen.Core()}
 	vf.Rapid(t, func(rt *rapid.T) {
+		kind := rapid.SampledFrom([]string{"cancel", "deadline", "counting"}).Draw(rt, "ctxkind")
+		if rapid.IntRange(0, 5).Draw(rt, "channels") == 0 {
+			chkLive.Run(rt, &LiveCase{Src: genChannelScript(rt), Profile: "channels", Kind: kind})
+			return
+		}
 		p := profiles[rapid.IntRange(0, len(profiles)-1).Draw(rt, "profile")]
 		pc := dcheck.Gen(rt, p)
-		kind := rapid.SampledFrom([]string{"cancel", "deadline", "counting"}).Draw(rt, "ctxkind")
 		chkLive.Run(rt, &LiveCase{Src: pc.Src, Profile: pc.Profile, Kind: kind})
 	})
 }
@@ -435,9 +567,9 @@ type ChanCase struct {
 }
 
 var chanScripts = map[string]string{
-	"receive_empty":     `tick() local ok, v = ch:receive() emit("returned", ok, v)`,
-	"send_full":         `tick() ch:send(1) emit("returned")`,
-	"select_all_blocked": `tick() local idx, v, ok = channel.select({"|<-", ch}) emit("returned", idx)`,
+	"receive_empty":       `tick() local ok, v = ch:receive() emit("returned", ok, v)`,
+	"send_full":           `tick() ch:send(1) emit("returned")`,
+	"select_all_blocked":  `tick() local idx, v, ok = channel.select({"|<-", ch}) emit("returned", idx)`,
 	"select_send_blocked": `tick() local idx = channel.select({"<-|", ch, 5}) emit("returned", idx)`,
 }
 
